@@ -50,13 +50,17 @@ Elem ==
     \* extended by the scalar ext_leaf
     ChainVal |-> [kind |-> "message", parent |-> "", pkg |-> "pkg"],
     ext_chain |-> [kind |-> "extension", parent |-> "", pkg |-> "pkg"],
-    ext_leaf |-> [kind |-> "extension", parent |-> "", pkg |-> "pkg"] ]
+    ext_leaf |-> [kind |-> "extension", parent |-> "", pkg |-> "pkg"],
+    \* the first message of a file of its own, with a nested type: kept as a mere namespace when only the nested type
+    \* is included, at a source path that does not move
+    First    |-> [kind |-> "message", parent |-> "", pkg |-> "pkg"],
+    Nested1  |-> [kind |-> "message", parent |-> "First", pkg |-> "pkg"] ]
 E == DOMAIN Elem
 \* the file that declares each element
 FileOf == [e \in E |-> IF Elem[e].pkg = "opts" THEN "opts.proto"
                        ELSE IF e = "Lonely" THEN "lonely.proto"
                        ELSE IF e \in {"WithOpt2", "UsesKind", "Payload", "WithAny"} THEN "b.proto"
-                       ELSE IF e = "Remote" THEN "c.proto" ELSE "a.proto"]
+                       ELSE IF e = "Remote" THEN "c.proto" ELSE IF e \in {"First", "Nested1"} THEN "d.proto" ELSE "a.proto"]
 Packages == {"pkg", "opts"}
 \* fields of messages: <<field name, referenced element or "">>
 Fields ==
@@ -66,7 +70,8 @@ Fields ==
     MapVal |-> {<<"v", "">>}, Ext |-> {}, ExtVal |-> {<<"e", "">>}, WithOpt |-> {<<"w", "">>}, Lonely |-> {<<"l", "">>},
     OptMsg |-> {<<"note", "">>},
     WithOpt2 |-> {<<"w2", "">>}, UsesKind |-> {<<"k", "Kind">>}, Payload |-> {<<"p", "">>},
-    Holder |-> {<<"extra", "">>}, WithAny |-> {<<"a", "">>}, Remote |-> {<<"r", "">>}, ChainVal |-> {<<"cv", "">>} ]
+    Holder |-> {<<"extra", "">>}, WithAny |-> {<<"a", "">>}, Remote |-> {<<"r", "">>}, ChainVal |-> {<<"cv", "">>},
+    First |-> {<<"f", "">>}, Nested1 |-> {<<"n", "">>} ]
 Messages == DOMAIN Fields
 \* methods: input, output
 MethodIO == [Get |-> <<"In", "Out">>, Other |-> <<"Unrelated", "MapVal">>, Far |-> <<"In", "Remote">>]
